@@ -282,8 +282,17 @@ void read_env(const std::vector<std::string> &t, std::size_t at, environment *e)
 // the property's own reading of the clause, independent of the model: every tunable parameter
 // defined afterwards, the user's settings kept (min_individuals may be raised up to `floor_min`),
 // is_valid(true)
-std::string tune_oracle(const environment &u, const environment &e, unsigned floor_min, bool valid_before)
+// `vs`: the validation strategy installed in the search object ("" = none of the library's: nothing to fill)
+std::string tune_oracle(const environment &u, const environment &e, unsigned floor_min, bool valid_before,
+                        const std::string &vs = "")
 {
+  // the installed strategy reads its parameter: it must have a value after the tuning (fix 237a8f6)
+  if ((vs == "dss" && !e.dss.has_value()) || (vs == "holdout" && !e.validation_percentage.has_value()))
+    return "bad:parameter-left-undefined";
+  if ((u.dss.has_value() && (!e.dss.has_value() || *e.dss != *u.dss))
+      || (u.validation_percentage.has_value()
+          && (!e.validation_percentage.has_value() || *e.validation_percentage != *u.validation_percentage)))
+    return "bad:user-setting-changed";
   if (!e.mep.code_length || !e.mep.patch_length || e.elitism == trilean::unknown || e.p_mutation < 0.0
       || e.p_cross < 0.0 || !e.brood_recombination || !e.layers || !e.individuals || !e.min_individuals
       || !e.tournament_size || !e.mate_zone || !e.generations || !e.max_stuck_time.has_value())
@@ -313,7 +322,7 @@ std::string tune_oracle(const environment &u, const environment &e, unsigned flo
 
 template<class Tag, class S>
 void do_tune(S &s, problem &prob, const std::string &kind, unsigned es_layers, unsigned dsize,
-             unsigned floor_min)
+             unsigned floor_min, const std::string &vs = "")
 {
   const environment user(prob.env);
   const bool vb(user.is_valid(false));
@@ -323,8 +332,15 @@ void do_tune(S &s, problem &prob, const std::string &kind, unsigned es_layers, u
   std::ostringstream req, exp;
   req << "tune " << kind << ' ' << es_layers << ' ' << term0 << ' ' << dsize << ' ' << env_fields(user);
   exp << env_fields(e) << ' ' << (vb ? 1 : 0) << ' ' << (e.is_valid(true) ? 1 : 0);
-  emit(tune_oracle(user, e, floor_min, vb), exp.str(), req.str());
+  emit(tune_oracle(user, e, floor_min, vb, vs), exp.str(), req.str());
 }
+
+// a validation strategy that is none of the library's (an open dss / validation_percentage stays open)
+class other_validation final : public validation_strategy
+{
+public:
+  void init(unsigned) override {}
+};
 
 void case_tune(const std::vector<std::string> &t)
 {
@@ -344,8 +360,19 @@ void case_tune(const std::vector<std::string> &t)
     if (es == "alps") { s_base_alps s(prob); do_tune<t_base_alps>(s, prob, "base", es_layers, 0, 0); }
     else { s_base_std s(prob); do_tune<t_base_std>(s, prob, "base", es_layers, 0, 0); }
   }
-  else if (cls == "src")
+  else if (cls.rfind("src", 0) == 0)
   {
+    // src | src-holdout | src-dss | src-other: the validation strategy installed BEFORE the tuning, as a user
+    // does (`src_search::validation_strategy(id)`: the strategies are constructed with their parameter possibly
+    // still open); `src` = the as_is_validation every search starts with
+    const std::string vs(cls.size() > 4 ? cls.substr(4) : "");
+    const auto install([&](auto &s, auto *base)
+                       {
+                         if (vs == "holdout") s.validation_strategy(validator_id::holdout);
+                         else if (vs == "dss") s.validation_strategy(validator_id::dss);
+                         else if (vs == "other") base->template validation_strategy<other_validation>();
+                         else if (!vs.empty()) emit("bad:unknown-validation-strategy", "-", "noop");
+                       });
     std::ostringstream csv;
     for (unsigned r(0); r < dsize; ++r)
     {
@@ -357,8 +384,18 @@ void case_tune(const std::vector<std::string> &t)
     src_problem prob(in);
     read_env(t, 5, &prob.env);
     const unsigned n(prob.data().size());
-    if (es == "alps") { s_src_alps s(prob); do_tune<t_src_alps>(s, prob, "src", es_layers, n, 0); }
-    else { s_src_std s(prob); do_tune<t_src_std>(s, prob, "src", es_layers, n, 0); }
+    if (es == "alps")
+    {
+      s_src_alps s(prob);
+      install(s, static_cast<search<i_mep, alps_es> *>(&s));
+      do_tune<t_src_alps>(s, prob, cls, es_layers, n, 0, vs);
+    }
+    else
+    {
+      s_src_std s(prob);
+      install(s, static_cast<search<i_mep, std_es> *>(&s));
+      do_tune<t_src_std>(s, prob, cls, es_layers, n, 0, vs);
+    }
   }
   else if (cls == "ga")
   {
